@@ -64,6 +64,57 @@ def run(payload):
             setter(f._data_full)
         return f._data_full
 
+    sections = payload.get("sections")
+    # ---- parameters changed between two uses of the same condition objects
+    if sections is None or "value_update" in sections:
+        for kind, alias in (("value", "value"), ("derivative", "derivative"), ("mixed", "mixed"), ("curvature", "curvature")):
+            for route in ("numpy", "numba"):
+                grid = CartesianGrid([(0, float(rng.uniform(0.5, 2)))], [int(rng.integers(3, 7))])
+                f = ScalarField(grid, rng.uniform(-1, 1, grid.shape))
+                par = {"value": float(rng.uniform(0.2, 2)), "const": float(rng.uniform(-1, 1))}
+                spec = {"type": alias, "value": par["value"]}
+                if kind == "mixed":
+                    spec["const"] = par["const"]
+                bcs = grid.get_boundary_conditions({"x-": spec, "x+": {"derivative": 0}}, rank=0)
+                cases += 1
+                try:
+                    for new_value in (None, float(rng.uniform(0.2, 2)), float(rng.uniform(0.2, 2))):
+                        if new_value is not None:
+                            bcs[0].low.value = new_value
+                            par["value"] = new_value
+                        f.data = rng.uniform(-1, 1, grid.shape)
+                        if route == "numpy":
+                            f.set_ghost_cells(bcs)
+                        else:
+                            get_backend("numba").make_ghost_cell_setter(bcs)(f._data_full)
+                        g, c1, c2, opp = ghost_and_cells(f._data_full, grid, 0, False, None)
+                        r = check(kind, g, c1, c2, opp, grid.discretization[0], par)
+                        if np.max(np.abs(r)) > 1e-10:
+                            fail("condition_after_value_update", bc_kind=kind, route=route, changed=new_value is not None, residual=float(np.max(np.abs(r))))
+                            break
+                except Exception as e:
+                    fail("error", bc_kind=kind, route=route, error=f"{type(e).__name__}: {e}", where="value_update")
+    # ---- every way of writing a periodic / anti-periodic axis
+    if sections is None or "periodic_specs" in sections:
+        grid = UnitGrid([4, 3], periodic=[True, False])
+        f = ScalarField(grid, rng.uniform(-1, 1, grid.shape))
+        for per_kind in ("periodic", "anti-periodic"):
+            for form, spec in (("str", per_kind), ("dict", {"type": per_kind}), ("pair", (per_kind, per_kind)), ("list_of_dicts", [{"type": per_kind}, {"type": per_kind}])):
+                for route in ("numpy", "numba"):
+                    cases += 1
+                    try:
+                        # named axes accept the string and dictionary forms; pairs are a per-axis format
+                        full = apply(f, {"x": spec, "y": {"value": 0.5}} if form in ("str", "dict") else [spec, {"value": 0.5}], route)
+                    except Exception as e:
+                        fail("error", spec=repr(spec), route=route, error=f"{type(e).__name__}: {e}", where="periodic_specs")
+                        continue
+                    for up in (False, True):
+                        g, c1, c2, opp = ghost_and_cells(full, grid, 0, up, None)
+                        if np.max(np.abs(check(per_kind, g, c1, c2, opp, 1.0, {}))) > 1e-12:
+                            fail("periodic_spec_form", bc_kind=per_kind, form=form, route=route, upper=up)
+    if sections is not None:
+        return {"ok": True, "cases": cases, "failures": fails}
+
     for rep in range(payload.get("n", 2)):
         grids = [CartesianGrid([(0, float(rng.uniform(0.5, 2)))], [int(rng.integers(2, 5))]),
                  CartesianGrid([(0, float(rng.uniform(0.5, 2))), (-1, float(rng.uniform(0.5, 2)))], [int(rng.integers(2, 5)), int(rng.integers(2, 5))]),
